@@ -23,7 +23,9 @@ from tokens import TS, TIdent, TPunct, TGroup, tokenize
 
 GENS = [('', []), ('<T>', [('ty', 'T')]), ("<'a>", [('lt', "'a")]), ("<'a, T>", [('lt', "'a"), ('ty', 'T')]), ("<T, 'a>".replace("T, 'a", "'a, 'b, T, U"), [('lt', "'a"), ('lt', "'b"), ('ty', 'T'), ('ty', 'U')]),
         ('<T: Clone>', [('ty', 'T')]), ('<T = i32>', [('ty', 'T')]), ('<const N: usize>', [('const', 'N')]), ("<'a: 'b, 'b>", [('lt', "'a"), ('lt', "'b")])]
-CPS = [('X', []), ('X<T>', []), ("X<'a>", ["'a"]), ("X<'c>", ["'c"]), ("m::X<'c, 'd, T>", ["'c", "'d"]), ("X<'a, 'c>", ["'a", "'c"])]
+# (counterpart path, the lifetime *parameters* it names — `'static` and `'_` name none and can be neither declared nor bounds of 'o2o)
+CPS = [('X', []), ('X<T>', []), ("X<'a>", ["'a"]), ("X<'c>", ["'c"]), ("m::X<'c, 'd, T>", ["'c", "'d"]), ("X<'a, 'c>", ["'a", "'c"]),
+       ("X<'static>", []), ("X<'c, 'static, 'c>", ["'c"]), ("X<'_>", [])]
 WHERES = [('none', None, None), ('default', 'T: Copy', None), ('dedicated', None, 'T: Copy + Send'), ('both', 'T: Clone', 'T: Copy + Send'), ('both-dedicated-second', 'T: Clone', 'T: Copy + Send')]
 
 
@@ -92,7 +94,7 @@ def check_header(im, gi, ci, wi, s_name='S'):
     if ref_lts:
         decl = [p for p in decode.split_top(im.generics, ',') if p and decode.is_p(p[0], "'") and p[1].name == 'o2o']
         bound = decode.norm(decl[0][3:]) if decl and len(decl[0]) > 2 else ''
-        if decl and bound != '+'.join(ref_lts):
+        if decl and set(x for x in bound.split('+') if x) != set(ref_lts):       # a repeated bound (`'c + 'c`) is harmless
             problems.append(('o2o-bound', "'o2o bounded by `%s`, expected `%s`" % (bound, '+'.join(ref_lts))))
     ref_side = im.trait_args if kind.startswith('From') else im.self_ty
     if by_ref:
